@@ -102,6 +102,19 @@ RULES = {
                                         {"s": 0, "op": "branch"}, A("x + ZeroExt(1, y) == 9", 1), E("x + ZeroExt(1, y)", 40, 0), E("x + ZeroExt(1, y)", 40, 1),
                                         {"s": 0, "op": "branch"}, A("x ^ ZeroExt(1, y) != 0", 0), E("x ^ ZeroExt(1, y)", 40, 2), E("y", 20, 2),
                                         {"s": 2, "op": "max", "e": "x + ZeroExt(1, y)", "signed": False, "extra": []}],
+    # x is constrained, y is FREE; a question whose names are exactly {x, y} (answered by what is known about x alone, possibly
+    # remembered under {x, y}); then y alone is constrained - a new child, x's child is untouched - and the same is asked again
+    "span-free-then-constrain-free": [A("ULT(x, 3)"), {"s": 0, "op": "satisfiable", "extra": []}, E("x + ZeroExt(1, y)", 2), A("y == 5"),
+                                      E("x + ZeroExt(1, y)", 40), {"s": 0, "op": "max", "e": "x + ZeroExt(1, y)", "signed": False, "extra": []},
+                                      {"s": 0, "op": "solution", "e": "x + ZeroExt(1, y)", "v": 9, "extra": []}],
+    "span-free-solution-then-constrain-free": [A("ULT(x, 3)"), {"s": 0, "op": "solution", "e": "x + ZeroExt(1, y)", "v": 9, "extra": []}, A("y == 5"),
+                                               {"s": 0, "op": "solution", "e": "x + ZeroExt(1, y)", "v": 9, "extra": []}, E("x + ZeroExt(1, y)", 40)],
+    "span-free-extra-then-constrain-free": [A("UGE(z, 1)"), {"s": 0, "op": "satisfiable", "extra": ["y ^ z == 1"]}, A("SLT(y, 0)"),
+                                            {"s": 0, "op": "satisfiable", "extra": ["y ^ z == 1"]}, E("y ^ z", 40),
+                                            {"s": 0, "op": "min", "e": "y ^ z", "signed": False, "extra": []}],
+    "span-free-then-branch-constrains-free": [A("ULT(x, 3)"), E("x + ZeroExt(1, y)", 2), {"s": 0, "op": "branch"}, A("y == 5", 1),
+                                              E("x + ZeroExt(1, y)", 40, 1), E("x + ZeroExt(1, y)", 40, 0),
+                                              {"s": 1, "op": "min", "e": "x + ZeroExt(1, y)", "signed": False, "extra": []}],
 }
 
 
@@ -131,6 +144,11 @@ def jobs_for(ctx, mult=1):
     for i in range(ctx.pick(40, 240) * mult):
         jobs.append({"cls": "SolverComposite", "cfg": {"track": i % 5 == 0, "reuse": i % 3 == 0}, "len": ctx.pick(4, 12),
                      "gen": {"shape": "span-then-branch", "symv": 0.35}})
+    # one variable constrained, another one FREE, ONE question whose names are exactly both, then the free one is constrained alone
+    # (on the solver or on a branch taken after the question), the same asked again; random tail
+    for i in range(ctx.pick(40, 240) * mult):
+        jobs.append({"cls": "SolverComposite", "cfg": {"track": i % 5 == 0, "reuse": i % 3 == 0}, "len": ctx.pick(4, 12),
+                     "gen": {"shape": "span-free", "symv": 0.35}})
     return jobs
 
 
@@ -159,7 +177,8 @@ def run(ctx):
                        "asked; then simplify / min / max / eval(n>1), possibly on a branch; and: range constraints per variable, each variable "
                        "enumerated completely, one weak connecting constraint - a disequality, often over a fresh third variable -, everything "
                        "asked again; and: two independent variables, ONE question spanning exactly both, branch, one or two solvers add a constraint "
-                       "over exactly both, everybody asked about expressions over both) with a random tail; SolverCompositeChild: random "
+                       "over exactly both, everybody asked about expressions over both; and: one variable constrained, one FREE, ONE question spanning "
+                       "exactly both, the free one constrained alone - possibly on a branch -, the same asked again) with a random tail; SolverCompositeChild: random "
                        "histories with full trace correspondence; _split_constraints: random constraint lists, model vs real; non-trivial = >= 3 calls")
     tie_ok = True
     try:
